@@ -174,7 +174,7 @@ struct Tier {
 
 fn tier(name: &str) -> Option<Tier> {
     match name {
-        "quick" => Some(Tier { name: "quick", selftest: 256, c05_keys: 12, c05_worlds: 40_000, c16_sample: 48, c16_worlds: 50_000 }),
+        "quick" => Some(Tier { name: "quick", selftest: 256, c05_keys: 12, c05_worlds: 28_000, c16_sample: 48, c16_worlds: 50_000 }),
         "thorough" => Some(Tier { name: "thorough", selftest: 4096, c05_keys: 64, c05_worlds: 600_000, c16_sample: usize::MAX, c16_worlds: 600_000 }),
         _ => None,
     }
